@@ -127,6 +127,7 @@ def items_root():
         ("__typename", TN()), ("me", Field("me", [Field("id")])), ("node", Field("node", [TN(), Field("id")])),
         ("user", Field("user", [Field("name")], args=[("id", "$id")])), ("...QF", Spread("QF")),
         ("on Q", Inline("Q", [Field("count")])), ("grid", Field("grid")), ("rows", Field("rows")),
+        ("outcomes", Field("outcomes", [TN(), Inline("http_error", [Field("code"), Field("stamp"), Field("order")]), Inline("User", [Field("name")])])),
     ]
 
 
